@@ -531,7 +531,8 @@ def a_quick_sample(cases, rng, per=9):
     """stratified: the same quota from every (option, kind of history, write command) stratum"""
     strata = {}
     for c in cases:
-        key = c['tag'].split(',')[0] + ' / ' + c['tag'].rsplit('then ', 1)[-1]
+        f = c['tag'].split(',')
+        key = f[0] + ' / ' + (f[2] if len(f) > 2 else '') + ' / ' + c['tag'].rsplit('then ', 1)[-1]
         strata.setdefault(key, []).append(c)
     out = []
     for k in sorted(strata):
